@@ -57,8 +57,8 @@ def rule_R13_1(ctx):
         for (f, bba, *_), (f2, bbb, *_) in zip(sa, sb):
             if f is not f2:
                 continue
-            ga = guards.flag_guard_of(f, guards.guard_of(f, bba)[0]) if guards.guard_of(f, bba) else None
-            gb = guards.flag_guard_of(f, guards.guard_of(f, bbb)[0]) if guards.guard_of(f, bbb) else None
+            ga = guards.selector_guard_of(f, guards.guard_of(f, bba)[0]) if guards.guard_of(f, bba) else None
+            gb = guards.selector_guard_of(f, guards.guard_of(f, bbb)[0]) if guards.guard_of(f, bbb) else None
             r.inst("%s: %s under flag=%s, %s under flag=%s" % (
                 f.path, a, ga[1] if ga else None, b, gb[1] if gb else None))
             if ga and gb and ga[0] == gb[0] and ga[1] is True and gb[1] is False:
@@ -144,7 +144,13 @@ def rule_R13_3(ctx):
         # every call that binds one property is followed by a removal
         binders = [c for c in f.calls() if not c.is_ptr and prog.fns.get(c.res) is not None
                    and prog.fns[c.res].module.startswith(_bmod(prog)) and not prog.fns[c.res].is_closure
-                   and any("BTreeMap" in t for t in c.argtys) and c.res != f.path]
+                   and any("BTreeMap" in t for t in c.argtys) and c.res != f.path
+                   # (a helper that is handed the remaining set itself builds
+                   # the rest object; it does not bind a property)
+                   and not any(mir.is_place_operand(a) and HS in t
+                               and any(f.canon_op(a)[0] == ("local", s_) or s_ in f.chain_locals(mir.op_place(a))
+                                       for s_ in sets)
+                               for a, t in zip(c.args, c.argtys))]
         for c in binders:
             # through the `?`: the Continue edge must reach a removal before the loop header
             ok = False
